@@ -182,6 +182,16 @@ def wl_snapshots(ctx, rng, case):
                         orc.model.cells[pos // 8] |= 1 << (pos % 8)
                     orc.completed += 1
                     snap.boundary("after add_alt with a short hash list")
+            elif r < 0.69:
+                # export to the filter's OWN backing file, named absolutely or relatively: documented as "nothing to do"; the file stays current
+                os.chdir(rng.choice([d1, sc.other]))
+                own = rng.choice([path, os.path.relpath(path, os.getcwd()), os.path.join(os.path.relpath(os.path.dirname(path), os.getcwd()), ".", os.path.basename(path))])
+                case.op("export-to-own-file", own)
+                snap.label = "export to own file"
+                with linehook.on_every_line(snap):
+                    f.export(own)
+                snap.boundary("after export to the own backing file")
+                ctx.count("exports_to_own_file")
             elif r < 0.72:
                 # export to another location, possibly from another working directory
                 os.chdir(rng.choice([cwd0, sc.other, d1]))
@@ -480,6 +490,6 @@ PROP = Prop(
                  "the hook is armed during add / export / close; creation, reopen and clear are checked at call boundaries only"],
     finish=finish,
     required=["crash_points", "distinct_file_states_validated", "real_kills_validated", "reopens", "exports_under_snapshots", "closes_under_snapshots",
-              "same_relative_name_cases", "reopen.rel_other_cwd", "reopen.abs_other_cwd", "large_file_cases", "refused_additions"],
+              "same_relative_name_cases", "reopen.rel_other_cwd", "reopen.abs_other_cwd", "large_file_cases", "refused_additions", "exports_to_own_file"],
     shards={"quick": 4, "thorough": 16},
 )
